@@ -35,6 +35,9 @@ Lemma inv_set_weof s v : Inv s -> Inv (set_weof s v).          Proof. irrelevant
 Lemma inv_set_mustc s v : Inv s -> Inv (set_mustc s v).        Proof. irrelevant. Qed.
 Lemma inv_set_g_written s v : Inv s -> Inv (set_g_written s v). Proof. irrelevant. Qed.
 Lemma inv_set_mc s t v : Inv s -> Inv (set_mc s t v).          Proof. apply inv_set_mustc. Qed.
+Lemma inv_set_prew s v : Inv s -> Inv (set_prew s v).          Proof. irrelevant. Qed.
+Lemma inv_set_g_pending s v : Inv s -> Inv (set_g_pending s v). Proof. irrelevant. Qed.
+Lemma inv_clear_prew s t : Inv s -> Inv (clear_prew s t).      Proof. apply inv_set_prew. Qed.
 Lemma inv_cancel_wait p s : Inv s -> Inv (cancel_wait p s).
 Proof. destruct p; cbn; [auto|apply inv_set_reading]. Qed.
 
@@ -125,7 +128,7 @@ Qed.
 Lemma inv_leave_send s t :
   Inv s -> is_send (phase_of s t) = true -> Inv (leave_send s t).
 Proof.
-  intros I Hr. unfold leave_send. apply inv_set_mc.
+  intros I Hr. unfold leave_send. apply inv_clear_prew, inv_set_mc.
   pose proof (send_unique s t) as U.
   destruct I as [H1 H2 H3 H4 H5 H6 H7 H8 H9 H10].
   assert (I : Inv s) by (constructor; assumption).
@@ -203,9 +206,9 @@ Proof.
     destruct (phase_of s t) as [| | m [] | | |] eqn:P; try discriminate. apply (H10 t). rewrite P. exact E.
 Qed.
 
-Lemma inv_write_event_set s : Inv s -> Inv (write_event_set s).
+Lemma inv_write_event_set0 s : Inv s -> Inv (write_event_set0 s).
 Proof.
-  intros I. unfold write_event_set. destruct (wval s (wev s)) eqn:Ew; [exact I|].
+  intros I. unfold write_event_set0. destruct (wval s (wev s)) eqn:Ew; [exact I|].
   destruct I as [H1 H2 H3 H4 H5 H6 H7 H8 H9 H10].
   constructor; cbn in *; auto.
   - intros t. rewrite wake_writers_recv. apply H4.
@@ -228,6 +231,9 @@ Proof.
     + injection E as <- <-. destruct (H10 t e _ P) as (A & B & C).
       split; [exact A|]. split; discriminate.
 Qed.
+
+Lemma inv_write_event_set s : Inv s -> Inv (write_event_set s).
+Proof. intros I. apply inv_write_event_set0, inv_set_g_pending, I. Qed.
 
 Lemma inv_pause_writing s : Inv s -> Inv (pause_writing s).
 Proof.
@@ -336,6 +342,27 @@ Proof.
     destruct rest as [|c' r']; exact IP.
 Qed.
 
+(* send(): checks, write, wait *)
+Lemma inv_send_write s t item pw :
+  Inv s -> is_send (phase_of s t) = true -> Inv (fst (send_write s t item pw)).
+Proof.
+  intros I Hs. unfold send_write.
+  destruct (closed s); [apply inv_leave_send; assumption|].
+  destruct (exc s); [apply inv_leave_send; assumption|].
+  destruct (weof s); [apply inv_leave_send; assumption|].
+  set (pend := if wval s (wev s) then _ else _).
+  set (s1 := set_g_pending (set_g_written s (g_written s ++ item)) pend).
+  assert (I1 : Inv s1) by (apply inv_set_g_pending, inv_set_g_written; exact I).
+  set (s2 := if pw then pause_writing s1 else s1).
+  assert (I2 : Inv s2) by (unfold s2; destruct pw; [apply inv_pause_writing|]; exact I1).
+  assert (P2 : phase_of s2 t = phase_of s t) by (unfold s2; destruct pw; reflexivity).
+  destruct (wval s2 (wev s2)) eqn:Ew; cbn [fst].
+  - apply inv_leave_send; [exact I2|rewrite P2; exact Hs].
+  - apply inv_rephase; try (rewrite P2); try discriminate; [exact I2| |exact (eq_sym Hs)|].
+    + cbn. destruct (phase_of s t); try discriminate; reflexivity.
+    + intros ev f E. injection E as <- <-. split; [lia|]. split; [discriminate|auto].
+Qed.
+
 (* ---------- the step ---------- *)
 Lemma step_inv pinned s o : Inv s -> Inv (fst (stepv pinned s o)).
 Proof.
@@ -387,23 +414,20 @@ Proof.
         destruct pinned; cbn; rewrite Ep; reflexivity.
     + assert (Hs : is_send (phase_of s t) = true) by (rewrite Ep; reflexivity).
       destruct (mustc s t); [apply inv_leave_send; assumption|].
-      destruct (closed s); [apply inv_leave_send; assumption|].
-      destruct (exc s); [apply inv_leave_send; assumption|].
-      destruct (weof s); [apply inv_leave_send; assumption|].
-      set (s1 := set_g_written s (g_written s ++ item)).
-      assert (I1 : Inv s1) by (apply inv_set_g_written; exact I).
-      set (s2 := if pw then pause_writing s1 else s1).
-      assert (I2 : Inv s2) by (unfold s2; destruct pw; [apply inv_pause_writing|]; exact I1).
-      assert (P2 : phase_of s2 t = SendYield item) by (unfold s2; destruct pw; cbn; exact Ep).
-      destruct (wval s2 (wev s2)) eqn:Ew; cbn [fst].
-      * apply inv_leave_send; [exact I2|rewrite P2; reflexivity].
-      * apply inv_rephase; try (rewrite P2; reflexivity); try discriminate; [exact I2|].
+      destruct (andb (negb pinned) (andb (negb (closed s)) (negb (wval s (wev s))))) eqn:Eb; cbn [fst].
+      * apply Bool.andb_true_iff in Eb. destruct Eb as [_ Eb]. apply Bool.andb_true_iff in Eb. destruct Eb as [_ Eb].
+        apply Bool.negb_true_iff in Eb.
+        apply inv_rephase; cbn; try (rewrite Ep; reflexivity); try discriminate; [apply inv_set_prew; exact I|].
         intros ev f E. injection E as <- <-. split; [lia|]. split; [discriminate|auto].
+      * apply inv_send_write; assumption.
     + assert (Hs : is_send (phase_of s t) = true) by (rewrite Ep; reflexivity).
       destruct f; cbn [fst]; [exact I| |apply inv_leave_send; assumption].
-      destruct (mustc s t); apply inv_leave_send; assumption.
+      destruct (mustc s t); [apply inv_leave_send; assumption|].
+      destruct (prew s t); [|apply inv_leave_send; assumption].
+      apply inv_send_write; [apply inv_clear_prew; exact I|cbn; exact Hs].
     + destruct (mustc s t); cbn [fst].
-      * apply inv_set_mc. apply inv_phase_plain; try (rewrite Ep; reflexivity); auto.
+      * apply inv_set_mc. apply inv_phase_plain; cbn; try (destruct pinned; cbn; rewrite Ep; reflexivity); auto.
+        destruct pinned; [exact I|apply inv_set_aborted; exact I].
       * apply inv_phase_plain; cbn; try (rewrite Ep; reflexivity); auto.
         apply inv_set_aborted; exact I.
   - (* Cancel *)
